@@ -1245,7 +1245,7 @@ def jobs(tier, scale=1.0):
     # forgery scans (l = 128, the cheapest level): 16 x 6000 altered signatures in quick, 16 x 100000 in thorough
     for fn in ("bignIdExtract", "bignVerify"):
         for c in range(max(1, int(round((12 if fn == "bignIdExtract" else 4) * min(1.0, scale))))):
-            js.append({"unit": "c02:unit_forgery_scan", "params": {"l": 128, "fn": fn, "chunk": c, "n": cnt(12000 if quick else 12500, 200)}})
+            js.append({"unit": "c02:unit_forgery_scan", "params": {"l": 128, "fn": fn, "chunk": c, "n": cnt(24000 if quick else 12500, 200)}})
     for l in LEVELS:
         js.append({"unit": "c02:unit_verify_edge", "params": {"l": l, "reps": cnt(1)}})
         for fn in ("KeypairGen", "Sign", "KeyWrap", "IdSign"):
